@@ -108,6 +108,16 @@ def _write_file_atomic(path: str, content: str) -> None:
     os.replace(tmp_path, path)
 
 
+def _free_backup_path(path: str) -> str:
+    """Return path + '.bak', or the first unused path + '.bakN' if that is taken."""
+    candidate = path + '.bak'
+    n = 1
+    while os.path.exists(candidate):
+        candidate = f'{path}.bak{n}'
+        n += 1
+    return candidate
+
+
 def _migrate_csv_to_rules(csv_file: str, config_dir: str, backup: bool = True) -> bool:
     """
     Migrate merchant_categories.csv to merchants.rules format.
@@ -136,6 +146,11 @@ def _migrate_csv_to_rules(csv_file: str, config_dir: str, backup: bool = True) -
 
         # Write new file
         new_file = os.path.join(config_dir, 'merchants.rules')
+        if os.path.exists(new_file):
+            # Never overwrite a rules file the user already has - keep it next to the new one
+            kept = _free_backup_path(new_file)
+            os.replace(new_file, kept)
+            print(f"  {C.YELLOW}→{C.RESET} Kept existing merchants.rules as {os.path.basename(kept)}")
         _write_file_atomic(new_file, content)
         print(f"  {C.GREEN}✓{C.RESET} Created: config/merchants.rules")
         print(f"      Converted {len(csv_rules)} merchant rules to new format")
@@ -158,8 +173,9 @@ def _migrate_csv_to_rules(csv_file: str, config_dir: str, backup: bool = True) -
 
         # Backup old file
         if backup and os.path.exists(csv_file):
-            shutil.move(csv_file, csv_file + '.bak')
-            print(f"  {C.GREEN}✓{C.RESET} Backed up: merchant_categories.csv → .bak")
+            backup_file = _free_backup_path(csv_file)
+            shutil.move(csv_file, backup_file)
+            print(f"  {C.GREEN}✓{C.RESET} Backed up: merchant_categories.csv → {os.path.basename(backup_file)}")
 
         return True
     except Exception as e:
